@@ -8,6 +8,7 @@ CONSTANTS
   AllowCorrupt = TRUE
   AllowRuns = FALSE
   Sim = FALSE
+  DynOnly = FALSE
   DynOpts <- FewDynOpts
   LitPalette <- SmallLit
   DistPalette <- SmallDist
